@@ -181,8 +181,13 @@ class IMAPConnection:
                 lit_plus = self._literal_plus.search(line)
             else:
                 lit_plus = None
-            if lit_plus:
-                literal_length = int(lit_plus.group(1))
+            try:
+                literal_length = int(lit_plus.group(1)) if lit_plus else None
+            except ValueError:
+                # more digits than sys.get_int_max_str_digits() allows: no
+                # literal is read and the command parser refuses the line
+                literal_length = None
+            if literal_length is not None:
                 buf += await self.reader.readexactly(literal_length)
                 line = await self.reader.readline()
                 buf += line
